@@ -26,12 +26,15 @@
 EXTENDS TwigSyntax, Json
 
 CONSTANTS MaxLen,               \* length of the emitted histories
-          RenderReleasesRoot    \* deviation switch: the pinned tree's defect (must be FALSE to conform)
+          RenderReleasesRoot,   \* deviation switch: the pinned tree's defect (must be FALSE to conform)
+          Prepared              \* TRUE: behaviours start after a prefix of registrations (one of Preps) and go on with renders only
 VARIABLES reg, cfg, handles, hist, tree
 
 Engines == {1, 2}
 Names == {"n1", "n2"}
 LoaderNames == {"n3"}           \* served by an array loader on every engine
+FsNames == {"n4", "n5"}         \* served by a file-system loader with two search paths on every engine
+HasPolicy(e) == e = 1           \* engine 2 has no security policy: a sandboxed include fails there
 
 \* ---- the fixed corpus of sources (ids); meaning is irrelevant to this model ----------
 T(s) == Text(s)
@@ -55,11 +58,21 @@ SrcBody(id) ==
       [] id = 15 -> <<PrintS(Var("Xv")), T(<<124>>), PrintS(Var("xV")), T(<<124>>), PrintS(Attr(Var("m"), "Ab"))>>
       [] id = 16 -> <<PrintS(Var("xv")), T(<<124>>), PrintS(Var("XV")), T(<<124>>), PrintS(Attr(Var("m"), "aB"))>>
       [] id = 12 -> <<Extends(Var("p")), Block("b", <<T(<<90>>), PrintS(Var("x"))>>)>>       \* dynamic parent: depends on the context
+      \* three render contexts alive at once: n1 (source 5) includes n2 (this), which includes n3
+      [] id = 17 -> <<T(<<60>>), Inc(LS(NT.n3)), T(<<62>>), PrintS(Var("x")), Include(LS(NT.n3), Hash(<<LS(NT.x)>>, <<LI(7)>>), TRUE, TRUE, FALSE, FALSE)>>
+      \* macro defaults that read the context: the value differs from render to render
+      [] id = 18 -> <<Macro("g", <<Param("a"), ParamD("b", Var("x"))>>, <<T(<<40>>), PrintS(Var("a")), PrintS(Var("b")), T(<<41>>)>>),
+                      PrintS(MCall("_self", "g", <<LI(1)>>)), PrintS(Call("g", <<LI(2)>>))>>
+      [] id = 19 -> <<Macro("mm", <<Param("a"), ParamD("b", Bin("~", Var("x"), LS(<<33>>)))>>, <<T(<<40>>), PrintS(Var("a")), PrintS(Var("b")), T(<<41>>)>>), T(<<77>>)>>
+      \* files of the file-system loader: n5 in both search paths (the first wins), n4 only in the second
+      [] id = 20 -> <<T(<<116, 53, 58>>), PrintS(Var("x"))>>
+      [] id = 21 -> <<T(<<98, 52, 58>>), PrintS(Var("x"))>>
+      [] id = 22 -> <<T(<<98, 53, 58>>), PrintS(Var("x"))>>
 SrcPieces(id) == IF id = 3 THEN RawSyntaxError ELSE Source(SrcBody(id), LMin)
-AllSrc == 1..16
+AllSrc == 1..22
 IsSyntaxError(id) == id = 3
 RefersToN2 == {5, 6, 8}
-SrcFor(n) == IF n = "n1" THEN {1, 2, 3, 4, 5, 6, 8, 10, 12, 13, 14, 15, 16} ELSE {1, 3, 4, 7, 9, 10, 14, 15, 16}     \* no recursion: only n1 refers to n2
+SrcFor(n) == IF n = "n1" THEN {1, 2, 3, 4, 5, 6, 8, 10, 12, 13, 14, 15, 16, 18} ELSE {1, 3, 4, 7, 9, 10, 14, 15, 16, 17, 19}     \* no recursion: only n1 refers to n2
 LoaderSrc == 11                   \* content of n3 in the loader
 CtxIds == {1, 2}
 CaseVars == ("Xv" :> VS(<<65>>)) @@ ("xV" :> VS(<<66>>)) @@ ("xv" :> VS(<<67>>)) @@ ("XV" :> VS(<<68>>))
@@ -68,7 +81,7 @@ CtxOf(c) == IF c = 1 THEN ("x" :> VS(<<113>>)) @@ ("p" :> VS(NT.n2)) @@ CaseVars
 
 \* ---- operations -------------------------------------------------------------------------
 \* the key a render result may depend on: logical state only
-Key(e, what, c) == [regs |-> reg[e], cache |-> cfg[e].cache, debug |-> cfg[e].debug, what |-> what, c |-> c]
+Key(e, what, c) == [regs |-> reg[e], cache |-> cfg[e].cache, debug |-> cfg[e].debug, what |-> what, c |-> c, pol |-> HasPolicy(e)]
 
 Op(name, e, args) == [op |-> name, e |-> e] @@ args
 
@@ -112,24 +125,42 @@ GC ==
     /\ hist' = Append(hist, Op("gc", 0, EmptyFn))
     /\ UNCHANGED <<reg, cfg, handles, tree>>
 
-Init == /\ reg = [e \in Engines |-> [n \in Names |-> 0]]
-        /\ cfg = [e \in Engines |-> [cache |-> TRUE, debug |-> FALSE]]
-        /\ handles = <<>> /\ hist = <<>>
-        /\ tree = [e \in Engines |-> [n \in Names |-> "none"]]
+\* prepared prefixes: a pair of sources that reach each other on engine 1 (include / extends / import / sandboxed include,
+\* failing and succeeding ones), and a source on engine 2 (which has no policy: 13 fails there)
+RichPairs == {<<5, 17>>, <<6, 7>>, <<8, 9>>, <<8, 19>>, <<13, 14>>, <<13, 1>>, <<12, 7>>, <<18, 1>>, <<4, 1>>, <<10, 17>>}
+Preps == {[p |-> p, o |-> o] : p \in RichPairs, o \in {13, 1}}
+PrepReg(q) == [e \in Engines |-> IF e = 1 THEN ("n1" :> q.p[1]) @@ ("n2" :> q.p[2]) ELSE ("n1" :> q.o) @@ ("n2" :> 7)]
+PrepHist(q) == <<Op("reg", 1, [n |-> "n1", s |-> q.p[1], ok |-> TRUE]), Op("reg", 1, [n |-> "n2", s |-> q.p[2], ok |-> TRUE]),
+                 Op("reg", 2, [n |-> "n2", s |-> 7, ok |-> TRUE]), Op("reg", 2, [n |-> "n1", s |-> q.o, ok |-> TRUE])>>
+Init == /\ cfg = [e \in Engines |-> [cache |-> TRUE, debug |-> FALSE]]
+        /\ handles = <<>>
+        /\ IF Prepared
+           THEN \E q \in Preps : /\ reg = PrepReg(q) /\ hist = PrepHist(q)
+                                  /\ tree = [e \in Engines |-> [n \in Names |-> IF PrepReg(q)[e][n] # 0 THEN "intact" ELSE "none"]]
+           ELSE /\ reg = [e \in Engines |-> [n \in Names |-> 0]] /\ hist = <<>>
+                /\ tree = [e \in Engines |-> [n \in Names |-> "none"]]
 
 \* engine 1 gets the full alphabet, engine 2 ("activity on another engine") a reduced one
-Next ==
+PreparedNext ==
+    /\ Len(hist) < MaxLen
+    /\ \/ \E n \in Names \cup LoaderNames : \E c \in CtxIds : DoRender(1, n, c, IF c = 1 THEN "render" ELSE "renderto")
+       \/ \E n \in FsNames : DoRender(1, n, 1, "render")
+       \/ DoRender(2, "n1", 1, "render")
+       \/ GC
+FullNext ==
     /\ Len(hist) < MaxLen
     /\ \/ \E n \in Names : \E s \in SrcFor(n) : Register(1, n, s)
        \/ \E s \in {1, 3, 6} : ParseOnly(1, s)
        \/ \E s \in {2, 5} : ParseKeep(1, s)
        \/ \E n \in Names \cup LoaderNames : \E c \in CtxIds : DoRender(1, n, c, IF c = 1 THEN "render" ELSE "renderto")
+       \/ \E n \in FsNames : DoRender(1, n, 1, "render")
        \/ \E h \in 1..2 : RenderHandle(h, 1)
        \/ \E b \in BOOLEAN : SetCache(1, b)
        \/ \E b \in BOOLEAN : SetDebug(1, b)
        \/ GC
-       \/ Register(2, "n1", 1) \/ Register(2, "n2", 7) \/ Register(2, "n1", 6)
+       \/ Register(2, "n1", 1) \/ Register(2, "n2", 7) \/ Register(2, "n1", 6) \/ Register(2, "n1", 13)
        \/ DoRender(2, "n1", 1, "render") \/ ParseOnly(2, 3)
+Next == IF Prepared THEN PreparedNext ELSE FullNext
 vars == <<reg, cfg, handles, hist, tree>>
 Spec == Init /\ [][Next]_vars
 
@@ -145,6 +176,8 @@ Header == [hdr |-> TRUE, prop |-> "C01",
            sources |-> [id \in AllSrc |-> SrcPieces(id)],       \* printed as a JSON array: index id-1
            ctxs |-> [c \in CtxIds |-> CtxOf(c)],
            loader |-> [n3 |-> LoaderSrc],
+           fs |-> <<[n5 |-> 20], [n4 |-> 21, n5 |-> 22]>>,          \* search paths in order: name -> source id
+           nopolicy |-> {e \in Engines : ~HasPolicy(e)},
            policy |-> [filters |-> {"upper", "default", "escape"}, functions |-> {"parent", "range"}]]
 Complete == Len(hist) = MaxLen /\ hist[MaxLen].op \in {"render", "renderh"}
 OpTags == {hist[i].op : i \in 1..Len(hist)}
